@@ -295,7 +295,9 @@ InsideCases ==
     {[fam |-> "contain", mode |-> "inside", refs |-> rl, refkinds |-> "rect", kind |-> k, margin |-> m,
       exp |-> IF m = <<>> THEN InterAll(rl) ELSE Shrink(InterAll(rl), m)] :
         rl \in OverlapLists, k \in {"rect", "circle", "ellipse"},
-        m \in {<<>>, <<<<"abs", 4>>>>, <<<<"pct", 25>>>>, <<<<"abs", 4>>, <<"abs", 0>>>>}}
+        m \in {<<>>, <<<<"abs", 4>>>>, <<<<"pct", 25>>>>, <<<<"abs", 4>>, <<"abs", 0>>>>,
+               <<<<"abs", 4>>, <<"abs", 0>>, <<"abs", 2>>>>, <<<<"abs", 1>>, <<"abs", 4>>, <<"abs", 2>>, <<"abs", 0>>>>,
+               <<<<"pct", 25>>, <<"abs", 0>>, <<"abs", 4>>, <<"pct", 50>>>>}}
     \cup
     {[fam |-> "contain", mode |-> "inside", refs |-> <<b>>, refkinds |-> rk, kind |-> "rect", margin |-> m,
       exp |-> b] :    \* exp: the enclosing shape's bounding box; result must lie within the shape
@@ -405,10 +407,11 @@ ItemKinds == {"rect", "circle", "line", "box", "text", "point", "defs", "shapete
               "usex", "usey", "usexy",     \* <use> of a shape kept in <defs>, offset by x and / or y
               "polyline", "path", "nestedsvg", "gnested", "clip", "reuse",
               \* the same rect rendered from inside a control element or a plain container
-              "inif", "inloop", "infor", "ing", "ina", "ifoff", "loop0"}
+              "inif", "inloop", "infor", "ing", "ina", "ifoff", "loop0",
+              "clipline"}      \* a horizontal line clipped to a square at its start: a box without area
 ItemBoxes == {B(2, 6, 18, 14), B(-22, -9, -6, 7), B(40, 1, 47, 30)}
 Counts(k) == k \in {"rect", "circle", "line", "box", "text", "gtrans", "gscale", "shapetext", "usex", "usey", "usexy",
-                     "polyline", "path", "nestedsvg", "gnested", "clip", "reuse", "inif", "inloop", "infor", "ing", "ina"}
+                     "polyline", "path", "nestedsvg", "gnested", "clip", "reuse", "inif", "inloop", "infor", "ing", "ina", "clipline"}
 \* ("ifoff": inside <if test="0">, "loop0": inside <loop count="0"> - never rendered, adds nothing)
 \* the geometry an item contributes, given its base box
 Contribution(k, b) ==
@@ -420,6 +423,7 @@ Contribution(k, b) ==
       [] k = "usexy" -> Shift(b, 80, -40)
       [] k = "gnested" -> Shift(B(2 * b.x1, 2 * b.y1, 2 * b.x2, 2 * b.y2), 12, -8)   \* translate(3 -2) outside scale(2)
       [] k = "clip" -> B(b.x1, b.y1, b.x1 + 4, b.y1 + 4)     \* clipped to a 1 x 1 clipPath at its corner
+      [] k = "clipline" -> B(b.x1, b.y1, b.x1 + 4, b.y1)     \* the line y = y1 from x1 to x2, clipped likewise
       [] k = "reuse" -> Shift(b, 80, 40)                     \* instance of a template in <specs> at x/y offset
       [] k = "circle" -> B(b.x1, b.y1, b.x1 + H(b), b.y2)               \* circle of diameter H at the box's left
       [] OTHER -> b                                                      \* shapetext: the shape only, not its text
